@@ -36,7 +36,7 @@ var reserved = map[string]bool{
 	"ensures": true, "modifies": true, "loop": true, "invariant": true, "inline": true, "pure": true,
 	"forall": true, "exists": true, "struct": true, "var": true, "const": true,
 	"impl": true, "callinv": true, "unchecked": true, "assumes": true, "lockfree": true, "guarded": true, "acquires": true,
-	"frozen": true, "nopanic": true, "terminates": true, "derived": true, "assumed": true, "view": true, "private": true, "abstractbody": true, "let": true, "in": true, "reads": true,
+	"variant": true, "frozen": true, "nopanic": true, "terminates": true, "derived": true, "assumed": true, "view": true, "private": true, "abstractbody": true, "let": true, "in": true, "reads": true,
 }
 
 func lexSpec(file string, startLine int, src string) ([]stok, error) {
@@ -244,6 +244,7 @@ type Contract struct {
 	Assumed  map[string]bool   // clause ids that are environment assumptions (not proved by implementations)
 	Derived  map[string]string // clause id -> lemma by which it follows from the other clauses
 	Uses     []string          // lemmas (proved separately) whose statements are assumed in this function's proof
+	Variant  string            // "" or the name of the contract variant this contract belongs to (e.g. "intf")
 	File     string
 	Line     int
 }
@@ -670,6 +671,10 @@ func (p *parser) parseContract() *Contract {
 			k, _ := strconv.Atoi(n.s)
 			p.expect("invariant")
 			c.LoopInv[k] = append(c.LoopInv[k], p.parseClause(t, fmt.Sprintf("inv%d", len(c.LoopInv[k])+1)))
+		case p.accept("variant"):
+			// variant <name>: this contract replaces the function's ordinary contract when the
+			// property being checked asks for that variant (e.g. the interference reading of C09)
+			c.Variant = p.ident()
 		case p.accept("uses"):
 			// uses <lemma>: the lemma (discharged as its own obligation) may be used in this function's proof
 			ln := p.ident()
